@@ -117,8 +117,12 @@ func (self Value) GetByPath(pathes ...Path) Value {
 		switch path.t {
 		case PathFieldId:
 			id := path.id()
+			f := desc.Struct().FieldById(id)
+			if f == nil {
+				return errValue(meta.ErrUnknownField, fmt.Sprintf("field id %d is not defined in IDL", id), nil)
+			}
 			tt, start, err = searchFieldId(&p, id)
-			desc = desc.Struct().FieldById(id).Type()
+			desc = f.Type()
 			isList = tt == thrift.LIST
 		case PathFieldName:
 			id := path.str()
